@@ -35,6 +35,7 @@ def run(ctx):
         scale = "x%.1f" % (job["cfg"].get("population_size", 0) / optimizers.CFGS[job["name"]][1]["population_size"]) if "population_size" in job["cfg"] else "x1.0"
         ctx.case(repr(oracles.job_key(job)), nontrivial=ok and len(r["result"]["evolution"]) >= 2, kind=f"{job['mode']}:{scale}:{'ok' if ok else ('rejected' if 'setup_error' in r else 'raised')}")
     oracles.check_c10(ctx, results)
+    oracles.check_skeleton_conformance(ctx, results, getattr(ctx, "facts", {}).get("steps", {}).get("classes", {}))
     for r in results[:2]:
         if "result" in r:
             ctx.sample({"job": oracles.job_key(r["job"]), "sizes": [len(g) for g in r["result"]["evolution"]], "population_size": r["cfg_before"].get("population_size")})
